@@ -127,8 +127,10 @@ def plan_for(prop, tier, seed):
             P.add(bw("find_reset", suffix="_e"), "E:m=%s,L=%d" % (e_method, L))
             P.add(cw("w123", suffix="_e"), "E:m=%s,L=%d" % (e_method, L))
             if not q:
-                P.add(bw("unit", suffix="_e"), "E:m=%s,L=%d" % (e_method, L))
-                P.add(bw("bin", suffix="_e"), "E:m=%s,L=%d" % (e_method, L))
+                # overlapping with output chains of 3: L = 3 needs > 24 GB, keep L = 2 there
+                Lu = 2 if e_method == "ovl" else L
+                P.add(bw("unit", suffix="_e"), "E:m=%s,L=%d" % (e_method, Lu))
+                P.add(bw("bin", suffix="_e"), "E:m=%s,L=%d" % (e_method, Lu))
                 P.add(cw("tokyo", suffix="_e"), "E:m=%s,L=%d" % (e_method, 3))
                 for pre in (("61", "62") if e_method == "ovl" else ("6162", "6263", "61")):
                     P.add(bw("find_reset", suffix="_p" + pre), "E:m=%s,L=2,pre=%s" % (e_method, pre))
